@@ -165,6 +165,13 @@ pub fn apply_with_fault(ex: &mut Exec, op: &Op) -> R {
         Victim::Filler => ledger::arm_filler_fault(),
     }
     ex.stats.faults_armed += 1;
+    {
+        // crash attribution: from here on an abort happens under an injected destructor fault
+        let mut ps = crate::wexec::op_props(&op.kind);
+        ps.push("C19");
+        ps.push("C08");
+        crate::util::probe_mark(&ps);
+    }
     let pre_comps = ex.model.comps.clone();
     let r = catch_unwind(AssertUnwindSafe(|| ex.apply_inner(op)));
     let fired = ledger::disarm();
@@ -369,9 +376,34 @@ fn resync(ex: &mut Exec, op: &Op, pre: &[std::collections::BTreeMap<u32, V>]) ->
                     _ => {}
                 }
             }
-            // an interrupted operation may have emitted an event for a component that is still
-            // there (or vice versa): membership replay is no longer demanded for this reader
-            t.replay_valid = false;
+            // Entity deletion pairs "mask bit cleared" with "Removed written" before the value's
+            // destructor runs, so replaying the events must still reproduce the membership even
+            // when a destructor panicked part-way. Other interrupted operations (an insert that
+            // unwound after announcing itself, clear) make replay meaningless for this reader.
+            let deletion = matches!(
+                &op.kind,
+                OpKind::DeleteNow(_) | OpKind::DeleteBatch(_) | OpKind::DeleteAll | OpKind::Maintain
+            );
+            if !deletion {
+                t.replay_valid = false;
+            }
+            if t.replay_valid && !t.emission_was_off {
+                let mask: std::collections::BTreeSet<u32> = ex.model.comps[s].keys().copied().collect();
+                if mask != ex.model.track[s].replayed {
+                    let rep = ex.model.track[s].replayed.clone();
+                    return Err(ex.viol(
+                        &["C12", "C19"],
+                        "event-replay-membership",
+                        format!(
+                            "slot {} ({}): after a destructor panicked inside an entity deletion, replaying Inserted/Removed gives {:?} but the mask is {:?} (a removal was not reported)",
+                            s,
+                            kind.name(),
+                            rep,
+                            mask
+                        ),
+                    ));
+                }
+            }
         } else {
             ex.model.track[s].expected.clear();
         }
